@@ -142,6 +142,22 @@ pub fn judge(case: &Value, salt: usize) -> Option<Value> {
                 }
             }
         }
+        // ---- interception switched on again between emit calls (an idempotent request): nothing emitted so far is lost
+        if n >= 2 {
+            let mut xs = fresh();
+            let mut ok = true;
+            for (i, p) in parts.iter().enumerate() {
+                if i > 0 { let _ = xs.intercept_output(true); }
+                if xs.eval(&format!("{} emit", p)).is_err() { ok = false; break; }
+            }
+            if ok {
+                let out: Option<Vec<u8>> = xs.get_var_value("output").ok().and_then(|c| c.bitstr().ok().map(|b| b.bits().collect()));
+                let len = xs.get_var_value("output-length").ok().and_then(|c| c.to_xint().ok());
+                if out.as_deref() != Some(&packed[..]) || len != Some(packed.len() as i128) {
+                    why.push(format!("interception requested again between the emits of `{}`: output {:?} (output-length {:?}), expected {:?}", parts.join(" emit "), out, len, packed));
+                }
+            }
+        }
         // ---- the record built once, cut into raw slices at the field boundaries and emitted piece by piece:
         // what is emitted are views that do not start at bit 0 of their buffer
         for mask in 0..(1usize << (n - 1)) {
